@@ -13,7 +13,7 @@ func (w *World) hostileRecovery(r *Run) string {
 	t := r.T
 	t.Begin("hostile-recovery")
 	defer t.End()
-	kinds := []string{"stale-same-setid", "foreign-set", "flip-in-recovery", "truncate-recovery", "garbage-named-like-volume", "empty-recovery", "flip-in-index", "forged-recovery-block", "conflicting-duplicate"}
+	kinds := []string{"stale-same-setid", "foreign-set", "flip-in-recovery", "truncate-recovery", "garbage-named-like-volume", "empty-recovery", "flip-in-index", "forged-recovery-block", "conflicting-duplicate", "recovery-holds-sibling", "recovery-holds-index"}
 	kind := kinds[t.Draw(len(kinds), "kind")]
 	return w.hostileRecoveryKind(r, kind)
 }
@@ -143,6 +143,38 @@ func (w *World) hostileRecoveryKind(r *Run, kind string) string {
 		w.Disk.Put(dst, nb)
 		r.Logf("hostile conflicting duplicate %s of %s", filepath.Base(dst), filepath.Base(src))
 		r.Probe("conflicting-duplicate-block")
+	case "recovery-holds-sibling", "recovery-holds-index":
+		// one valid file turned into another valid-looking one: a
+		// recovery file holds the bytes of another recovery file of the
+		// set (that one gone, swapped with it, or still there), or of the
+		// index
+		if len(present) == 0 {
+			return "none"
+		}
+		i := t.Draw(len(present), "dst")
+		dst := present[i]
+		db, _ := w.Disk.Get(dst)
+		if kind == "recovery-holds-index" || len(present) < 2 {
+			ib, ok := w.Disk.Get(w.Index)
+			if !ok {
+				return "none"
+			}
+			w.Disk.Put(dst, append([]byte(nil), ib...))
+			r.Logf("hostile: %s now holds the bytes of the index", filepath.Base(dst))
+			kind = "recovery-holds-index"
+			break
+		}
+		src := present[(i+1+t.Draw(len(present)-1, "src"))%len(present)]
+		sb, _ := w.Disk.Get(src)
+		w.Disk.Put(dst, append([]byte(nil), sb...))
+		switch t.Draw(3, "source-fate") {
+		case 0:
+			w.Disk.Remove(src)
+		case 1:
+			w.Disk.Put(src, append([]byte(nil), db...))
+		}
+		r.Logf("hostile: %s now holds the bytes of %s", filepath.Base(dst), filepath.Base(src))
+		r.Probe("recovery-file-holds-sibling-bytes")
 	case "foreign-set":
 		other := []ref.Protected{{Name: "foreign.bin", Data: expandContent(ckRandom, t.Draw64(0, "fseed"), 3*w.S+1, w.S)}}
 		set := ref.BuildSet(other, w.S, []int{0, 1}, "foreign")
